@@ -1203,8 +1203,15 @@ pub fn gen_response_kind(rng: &mut Rng, cfg: &GenCfg, kind: usize) -> Response<'
             let mut tries = 0;
             while m.len() < n && tries < 50 {
                 tries += 1;
-                let k = if rng.bool() { Cow::Borrowed(*rng.pick(KEYS)) } else { cow_str(gen_utf8(rng, cfg)) };
-                let v = cow_str(gen_utf8(rng, cfg));
+                // RFC 2971 section 3.3: field names are at most 30 octets, values at most 1024
+                let clamp = |mut t: String, max: usize| {
+                    while t.len() > max {
+                        t.pop();
+                    }
+                    t
+                };
+                let k = if rng.bool() { Cow::Borrowed(*rng.pick(KEYS)) } else { cow_str(clamp(gen_utf8(rng, cfg), 30)) };
+                let v = cow_str(clamp(gen_utf8(rng, cfg), 1024));
                 m.entry(k).or_insert(v);
             }
             Response::Id(Some(m))
